@@ -10,7 +10,8 @@
 (*   <<"and_"|"or_", L>>  before the (lazy) operands; <<"not_", L>> after  *)
 (*   <<"if_exp", L>>      after the condition, before the chosen branch    *)
 (*   <<"call", L>>        every call written by the user (tracers, local   *)
-(*                        functions); with-item expressions are excepted   *)
+(*                        functions, lambdas, decorators); with-item       *)
+(*                        expressions are excepted                         *)
 (* where L is the length of the effect log at the moment the operator is   *)
 (* invoked.  The harness records the same pairs from instrumented          *)
 (* operators while running the converted function; the predicted list must *)
@@ -40,6 +41,18 @@ StepOps ==
        THEN Eval(d.e, f.env, S0(PadTo(Used, d.nch))).s.ops
        ELSE IF d.kind = "newobj" THEN << <<"call", Len(log)>> >>
        ELSE IF d.kind = "call" /\ NCallsOf(ctrl') > NCallsOf(ctrl) THEN << <<"call", Len(log)>> >>
+       ELSE IF d.kind = "call"       \* a lambda value: the call, then whatever its body goes through
+       THEN LET fc == CellOf(envs, f.env, d.name)
+                fv == IF fc = 0 THEN Unbound ELSE cells[fc]
+                avs == [j \in 1..Len(d.args) |-> LET c == CellOf(envs, f.env, d.args[j]) IN IF c = 0 THEN Unbound ELSE cells[c]] IN
+            IF fv # Unbound /\ fv[1] = "m" /\ \A j \in 1..Len(avs) : avs[j] # Unbound
+            THEN LET lx == EX(fv[2]) IN
+                 << <<"call", Len(log)>> >> \o
+                 Eval(lx.args[1], fv[3], S0X(PadTo(Used, d.nch), log, IF lx.name = "" THEN <<>> ELSE << <<lx.name, avs[1]>> >>, {})).s.ops
+            ELSE <<>>
+       ELSE IF d.kind = "def"        \* decorator call, then the default value
+       THEN (IF d.k # 0 THEN << <<"call", Len(log)>> >> ELSE <<>>) \o
+            (IF d.e # 0 THEN Eval(d.e, f.env, S0X(PadTo(Used, d.nch), DefLog(d, log), <<>>, {})).s.ops ELSE <<>>)
        ELSE <<>>
   ELSE IF f.k = "while"
   THEN Eval(ND(f.node).e, f.env, S0(PadTo(Used, ND(f.node).nch))).s.ops
